@@ -32,11 +32,15 @@ enum Op2 { O_AND, O_OR, O_XOR, O_ADD, O_SUB, O_EQ, O_NE, O_LT };
 struct Expr {
 	ExprK k = E_CONST; Ty ty; std::string bits; int x = 0; std::vector<Sel> path; int op = 0; std::vector<Expr> kids;
 };
-enum StmtK { ST_DECL, ST_DEFAULT, ST_ASSIGN, ST_IF, ST_ELSE, ST_ELSEIF, ST_ELSEIF2 };
+enum StmtK { ST_DECL, ST_DEFAULT, ST_ASSIGN, ST_IF, ST_ELSE, ST_ELSEIF, ST_ELSEIF2,
+             // width-less, policy-carrying variables (own index space): UInt x = lit / SInt x{lit}; UInt x = zext(e) / oext(e); UInt x = y; x = lit; x = y; Bit t = (x op y)
+             ST_ILIT, ST_IEXT, ST_ICOPY, ST_IASSIGN, ST_IVAR, ST_CMP };
 struct Stmt {
 	StmtK k = ST_DECL; Ty ty; std::string bits; int x = 0; std::vector<Sel> path; Expr e; std::vector<Stmt> body;
+	char ikind = 'u';      // 'u' UInt literal (policy zero), 's' SInt literal (policy sign), 'z' zext(e) (zero), 'o' oext(e) (one)
+	long long lit = 0; int y = 0; int op = 0;
 };
-struct Program { std::vector<Ty> ins; std::vector<Stmt> stmts; bool aliasPattern = false; };
+struct Program { std::vector<Ty> ins; std::vector<Stmt> stmts; bool aliasPattern = false; bool intPattern = false; };
 
 static void printPath(std::ostream &o, const std::vector<Sel> &p) {
 	o << p.size();
@@ -66,6 +70,12 @@ static void printStmts(std::ostream &o, const std::vector<Stmt> &ss) {
 			case ST_ELSE: o << "EL\n"; printStmts(o, s.body); o << "}\n"; break;
 			case ST_ELSEIF: o << "EI "; printExpr(o, s.e); o << '\n'; printStmts(o, s.body); o << "}\n"; break;
 			case ST_ELSEIF2: o << "E2 "; printExpr(o, s.e); o << '\n'; printStmts(o, s.body); o << "}\n"; break;
+			case ST_ILIT: o << "IL " << s.ikind << ' ' << s.lit << '\n'; break;
+			case ST_IEXT: o << "IX " << s.ikind << ' '; printExpr(o, s.e); o << '\n'; break;
+			case ST_ICOPY: o << "IC " << s.y << '\n'; break;
+			case ST_IASSIGN: o << "IA " << s.x << ' ' << s.lit << '\n'; break;
+			case ST_IVAR: o << "IV " << s.x << ' ' << s.y << '\n'; break;
+			case ST_CMP: o << "CM " << opNames[s.op] << ' ' << s.x << ' ' << s.y << '\n'; break;
 		}
 	}
 }
@@ -110,6 +120,12 @@ static std::vector<Stmt> parseStmts(std::istream &in) {
 		else if (h == "EL") { s.k = ST_ELSE; s.body = parseStmts(in); }
 		else if (h == "EI") { s.k = ST_ELSEIF; s.e = parseExpr(tk); s.body = parseStmts(in); }
 		else if (h == "E2") { s.k = ST_ELSEIF2; s.e = parseExpr(tk); s.body = parseStmts(in); }
+		else if (h == "IL") { s.k = ST_ILIT; s.ikind = tk.next()[0]; s.lit = atoll(tk.next().c_str()); }
+		else if (h == "IX") { s.k = ST_IEXT; s.ikind = tk.next()[0]; s.e = parseExpr(tk); }
+		else if (h == "IC") { s.k = ST_ICOPY; s.y = atoi(tk.next().c_str()); }
+		else if (h == "IA") { s.k = ST_IASSIGN; s.x = atoi(tk.next().c_str()); s.lit = atoll(tk.next().c_str()); }
+		else if (h == "IV") { s.k = ST_IVAR; s.x = atoi(tk.next().c_str()); s.y = atoi(tk.next().c_str()); }
+		else if (h == "CM") { s.k = ST_CMP; std::string op = tk.next(); for (int i = 0; i < 8; i++) if (op == opNames[i]) s.op = i; s.x = atoi(tk.next().c_str()); s.y = atoi(tk.next().c_str()); }
 		else continue;
 		out.push_back(std::move(s));
 	}
@@ -120,6 +136,9 @@ static std::vector<Stmt> parseStmts(std::istream &in) {
 struct VarInfo { Ty ty; bool dflt; int depth; bool input; };
 struct Gen {
 	Rng &rng; int maxDepth; int budget; bool malformed = false; bool didMalform = false;
+	struct IVarInfo { char kind; int width; };   // static width as the frontend tracks it (m_width grows with every wider value, taken or not)
+	std::vector<IVarInfo> ivars;
+	bool intPending = false;     // pattern seed still to be emitted: variables initialised from integer literals / ext(), re-assigned wider / narrower / equal literals
 	bool aliasPending = false;   // pattern seed still to be emitted: dynamic selections on one vector that share index variable / width / option count
 	std::vector<VarInfo> vars;
 	int depth = 0;
@@ -219,6 +238,82 @@ struct Gen {
 	Ty genTy() { if (rng.chance(2, 5)) return Ty{}; static const std::vector<int> ws = {1, 2, 3, 4, 4, 5, 6, 8}; return Ty{false, rng.pick(ws)}; }
 
 
+	// ---- pattern seed: width-less variables (integer literals, zext/oext) and the conditional width-increment path -----------------
+	// `UInt x = 5; IF (c) x = 200;` : BaseBitVector::assign grows x and, inside a scope, pads the OLD value to the new width with x's
+	// expansion policy (zero for UInt literals, sign for SInt, one for oext()) before the conditional multiplexer. The pattern declares
+	// such variables and re-assigns wider / narrower / equal-width literals and other such variables, bare and inside IF / ELSE / ELSEIF,
+	// takes copies before and after (reads), and compares them (the comparison result is an ordinary Bit, often used as a condition).
+	static int bitLen(unsigned long long n) { int r = 0; while (n) { r++; n >>= 1; } return r; }
+	static int litWidth(char kind, long long v) { return kind == 's' ? (v >= 0 ? bitLen((unsigned long long)v) + 1 : bitLen((unsigned long long)(-v - 1)) + 1) : bitLen((unsigned long long)v); }
+	static bool sameClass(char a, char b) { auto c = [](char k) { return k == 'z' ? 'u' : k; }; return c(a) == c(b); }
+	long long litOfWidth(char kind, int wt) {       // a literal whose inferred width is exactly wt
+		if (kind == 's') {
+			if (wt <= 1) return rng.chance(1, 2) ? 0 : -1;
+			long long lo = 1ll << (wt - 2), hi = (1ll << (wt - 1)) - 1, m = (long long)rng.range((uint64_t)lo, (uint64_t)hi);
+			return rng.chance(1, 2) ? m : -m - 1;
+		}
+		if (wt <= 1) return 1;
+		return (long long)rng.range(1ull << (wt - 1), (1ull << wt) - 1);
+	}
+	void intAssign(std::vector<Stmt> &out, int x) {       // one assignment to integer variable x (appended to `out`), static width updated
+		IVarInfo &v = ivars[x];
+		std::vector<int> others; for (size_t i = 0; i < ivars.size(); i++) if ((int)i != x && sameClass(ivars[i].kind, v.kind)) others.push_back((int)i);
+		Stmt a;
+		if (!others.empty() && rng.chance(1, 4)) { a.k = ST_IVAR; a.x = x; a.y = others[rng.below(others.size())]; v.width = std::max(v.width, ivars[a.y].width); }
+		else {
+			int W = v.width, wt;
+			unsigned cls = (unsigned)rng.below(10);                     // wider (most interesting) / equal / narrower
+			if (cls < 5 || (v.kind == 'o' && cls >= 7)) wt = W + (int)rng.range(1, 4);
+			else if (cls < 7 || W <= 1) wt = W;
+			else wt = (int)rng.range(1, W - 1);                         // narrower: not for policy one (zero padded literal, width dependent meaning)
+			if (wt > 12) wt = (v.kind == 'o') ? W : 12;
+			if (v.kind == 'o' && wt < W) wt = W;
+			a.k = ST_IASSIGN; a.x = x; a.lit = litOfWidth(v.kind == 's' ? 's' : 'u', wt);
+			v.width = std::max(v.width, litWidth(v.kind == 's' ? 's' : 'u', a.lit));
+		}
+		out.push_back(a); budget--;
+	}
+	void genIntPattern(std::vector<Stmt> &out) {
+		intPending = false;
+		int nv = (int)rng.range(1, 2);
+		std::vector<int> mine;
+		for (int i = 0; i < nv; i++) {
+			Stmt d; unsigned k = (unsigned)rng.below(100);
+			if (!mine.empty() && rng.chance(1, 2)) { char kd = ivars[mine[0]].kind; k = kd == 's' ? 50 : (kd == 'o' ? 95 : (rng.chance(1, 2) ? 10 : 80)); }   // same class: lets them be assigned / compared
+			if (k < 40) { d.k = ST_ILIT; d.ikind = 'u'; d.lit = (long long)rng.range(1, 40); ivars.push_back({'u', litWidth('u', d.lit)}); }
+			else if (k < 75) { d.k = ST_ILIT; d.ikind = 's'; d.lit = (long long)rng.range(0, 80) - 40; ivars.push_back({'s', litWidth('s', d.lit)}); }
+			else { int w = (int)rng.range(1, 4); d.k = ST_IEXT; d.ikind = k < 87 ? 'z' : 'o'; d.e = genExpr(Ty{false, w}, 1); ivars.push_back({d.ikind, w}); }
+			out.push_back(d); budget--; mine.push_back((int)ivars.size() - 1);
+		}
+		int steps = (int)rng.range(2, 5);
+		int lastCmp = -1;
+		for (int st = 0; st < steps; st++) {
+			int x = mine[rng.below(mine.size())];
+			unsigned k = (unsigned)rng.below(100);
+			if (k < 12) {                 // a copy (read) - before / after growth
+				Stmt c; c.k = ST_ICOPY; c.y = x; out.push_back(c); budget--; ivars.push_back(ivars[x]); mine.push_back((int)ivars.size() - 1);
+			} else if (k < 27) {          // comparison -> ordinary Bit
+				std::vector<int> others; for (int m : mine) if (sameClass(ivars[m].kind, ivars[x].kind)) others.push_back(m);
+				Stmt c; c.k = ST_CMP; c.x = x; c.y = others[rng.below(others.size())];
+				c.op = (ivars[x].kind == 'o' || rng.chance(1, 2)) ? (rng.chance(1, 2) ? O_EQ : O_NE) : O_LT;
+				out.push_back(c); budget--; vars.push_back({Ty{}, false, depth, false}); lastCmp = (int)vars.size() - 1;
+			} else {
+				unsigned wrap = depth < maxDepth ? (unsigned)rng.below(100) : 0;
+				auto cond = [&]() { if (lastCmp >= 0 && rng.chance(1, 3)) { Expr e; e.k = E_READ; e.ty = Ty{}; e.x = lastCmp; return e; } return genCond(nullptr); };
+				if (wrap < 35) intAssign(out, x);
+				else {
+					Stmt f; f.k = ST_IF; f.e = cond(); intAssign(f.body, x); if (rng.chance(1, 4)) intAssign(f.body, mine[rng.below(mine.size())]);
+					out.push_back(f); budget--;
+					if (wrap >= 70 && wrap < 90) { Stmt e; e.k = ST_ELSE; intAssign(e.body, x); out.push_back(e); budget--; }
+					else if (wrap >= 90) {
+						Stmt e; e.k = rng.chance(1, 2) ? ST_ELSEIF : ST_ELSEIF2; e.e = cond(); intAssign(e.body, x); out.push_back(e); budget--;
+						if (rng.chance(1, 2)) { Stmt e2; e2.k = ST_ELSE; intAssign(e2.body, x); out.push_back(e2); budget--; }
+					}
+				}
+			}
+		}
+	}
+
 	// ---- pattern seed: selections that differ only in one component of the frontend's alias-cache key ------------------------------
 	// The frontend caches slice aliases per vector (BaseBitVector::m_rangeAlias, keyed by BitVectorSliceStatic/Dynamic::operator<:
 	// parent, offset multiplier, max index, offset signal, width). `v.part(parts, idx)` (multiplier = part width) and `v(idx, w)`
@@ -290,9 +385,10 @@ struct Gen {
 	}
 
 	void genBlock(std::vector<Stmt> &out, int n) {
-		size_t nvars = vars.size();
+		size_t nvars = vars.size(), nivars = ivars.size();
 		while (n > 0 && budget > 0) {
 			if (aliasPending && rng.chance(1, 4)) { genAliasPattern(out); n--; continue; }
+			if (intPending && rng.chance(1, 4)) { genIntPattern(out); n--; continue; }
 			unsigned k = (unsigned)rng.below(100);
 			budget--; n--;
 			if (k < 12) {
@@ -347,6 +443,9 @@ struct Gen {
 		}
 		// not placed so far: append at top level, while the top level variables are still known (vars is truncated below)
 		if (depth == 0 && aliasPending) genAliasPattern(out);
+		if (depth == 0 && intPending) genIntPattern(out);
+		{ // static widths survive the block (m_width of an outer variable grown inside stays grown); only the block's own variables go
+			ivars.resize(nivars); }
 		vars.resize(nvars);
 	}
 };
@@ -364,6 +463,7 @@ static Program genProgram(Rng &rng, int maxStmts, int maxDepth, bool malformed) 
 		bits += t.w; p.ins.push_back(t); g.vars.push_back({t, false, 0, true});
 	}
 	p.aliasPattern = g.aliasPending = rng.chance(1, 4);
+	p.intPattern = g.intPending = rng.chance(1, 4);
 	g.genBlock(p.stmts, 1000);
 	return p;
 }
@@ -371,8 +471,12 @@ static Program genProgram(Rng &rng, int maxStmts, int maxDepth, bool malformed) 
 // ------------------------------------------------------------------------------------------------ executing the program on the real frontend
 struct Value { std::unique_ptr<Bit> b; std::unique_ptr<UInt> u; };
 
+struct IValue { std::unique_ptr<UInt> u; std::unique_ptr<SInt> s; };
+
 struct Exec {
 	std::vector<Value> vars;     // live frontend objects, declaration order
+	std::vector<IValue> ivars;   // width-less, policy-carrying vectors (own index space)
+	IValue &ivar(int i) { if (i < 0 || i >= (int)ivars.size()) throw std::runtime_error("unknown integer variable"); return ivars[i]; }
 
 	const UInt &idxVar(int i) { if (i < 0 || i >= (int)vars.size() || !vars[i].u) throw std::runtime_error("bad index variable"); return *vars[i].u; }
 
@@ -477,6 +581,7 @@ struct Exec {
 	void block(const std::vector<Stmt> &ss, bool topLevel = false) {
 		size_t nvars = topLevel ? (size_t)-1 : vars.size();   // top level variables stay alive: their final values are the observed outputs
 		struct Restore { std::vector<Value> &v; size_t n; ~Restore() { while (v.size() > n) v.pop_back(); } } restore{vars, nvars}; // locals die at the end of the block
+		struct RestoreI { std::vector<IValue> &v; size_t n; ~RestoreI() { while (v.size() > n) v.pop_back(); } } restoreI{ivars, topLevel ? (size_t)-1 : ivars.size()};
 		for (const Stmt &s : ss) {
 			switch (s.k) {
 				case ST_DECL: {
@@ -508,6 +613,48 @@ struct Exec {
 					}
 					break;
 				}
+				case ST_ILIT: {
+					IValue v;
+					if (s.ikind == 's') v.s = std::make_unique<SInt>((std::int64_t)s.lit);
+					else { if (s.lit < 1) throw std::runtime_error("UInt literal < 1"); v.u = std::make_unique<UInt>((std::uint64_t)s.lit); }
+					ivars.push_back(std::move(v));
+					break;
+				}
+				case ST_IEXT: {
+					if (exprIsBit(s.e)) throw std::runtime_error("type");
+					IValue v; UInt src = evalU(s.e);
+					// `UInt x = oext(src);` initialises x from the prvalue without a move (guaranteed elision); make_unique would go through UInt(UInt&&),
+					// which drives the temporary from x's own signal node - after that the frontend refuses to grow x ("already driving signals")
+					if (s.ikind == 'o') v.u.reset(new UInt(oext(src))); else if (s.ikind == 'z') v.u.reset(new UInt(zext(src))); else throw std::runtime_error("type");
+					ivars.push_back(std::move(v));
+					break;
+				}
+				case ST_ICOPY: {
+					IValue &y = ivar(s.y); IValue v;
+					if (y.u) v.u = std::make_unique<UInt>(*y.u); else v.s = std::make_unique<SInt>(*y.s);
+					ivars.push_back(std::move(v));
+					break;
+				}
+				case ST_IASSIGN: {
+					IValue &x = ivar(s.x);
+					if (x.u) { if (s.lit < 1) throw std::runtime_error("UInt literal < 1"); *x.u = (std::uint64_t)s.lit; } else *x.s = (std::int64_t)s.lit;
+					break;
+				}
+				case ST_IVAR: {
+					IValue &x = ivar(s.x); IValue &y = ivar(s.y);
+					if ((bool)x.u != (bool)y.u) throw std::runtime_error("type");
+					if (x.u) *x.u = *y.u; else *x.s = *y.s;
+					break;
+				}
+				case ST_CMP: {
+					IValue &x = ivar(s.x); IValue &y = ivar(s.y);
+					if ((bool)x.u != (bool)y.u) throw std::runtime_error("type");
+					Value v;
+					if (x.u) v.b = std::make_unique<Bit>(s.op == O_EQ ? (*x.u == *y.u) : s.op == O_NE ? (*x.u != *y.u) : (*x.u < *y.u));
+					else v.b = std::make_unique<Bit>(s.op == O_EQ ? (*x.s == *y.s) : s.op == O_NE ? (*x.s != *y.s) : (*x.s < *y.s));
+					vars.push_back(std::move(v));
+					break;
+				}
 				case ST_IF:
 					// IF(x)  ->  if (gtry::ConditionalScope ___condScope{x}) body
 					if (gtry::ConditionalScope ___condScope{evalB(s.e)}) block(s.body);
@@ -533,7 +680,7 @@ struct Exec {
 static bool hasDefault(const std::vector<Stmt> &ss) { for (auto &s : ss) if (s.k == ST_DEFAULT || hasDefault(s.body)) return true; return false; }
 
 static void runCase(std::ostream &o, const std::string &id, const Program &p, Rng &vrng, int exhBits, int nRandom) {
-	o << "case " << id << (p.aliasPattern ? " alias" : "") << "\n";
+	o << "case " << id << (p.aliasPattern ? " alias" : "") << (p.intPattern ? " intlit" : "") << "\n";
 	o << "ins"; for (auto &t : p.ins) o << ' ' << tyStr(t); o << '\n';
 	printStmts(o, p.stmts);
 	o << "endprog\n";
@@ -561,6 +708,11 @@ static void runCase(std::ostream &o, const std::string &id, const Program &p, Rn
 			if (ex.vars[i].b) outPins.push_back(pinOut(*ex.vars[i].b).setName("out" + std::to_string(i)).node());
 			else outPins.push_back(pinOut(*ex.vars[i].u).setName("out" + std::to_string(i)).node());
 		}
+		std::vector<hlim::Node_Pin *> outPinsI;   // final bits of the width-less variables (their final static width)
+		for (size_t i = 0; i < ex.ivars.size(); i++) {
+			if (ex.ivars[i].u) outPinsI.push_back(pinOut(*ex.ivars[i].u).setName("iout" + std::to_string(i)).node());
+			else outPinsI.push_back(pinOut(*ex.ivars[i].s).setName("iout" + std::to_string(i)).node());
+		}
 		int totalBits = 0; for (auto &t : p.ins) totalBits += t.w;
 		std::vector<std::vector<std::string>> vals;
 		auto mk = [&](uint64_t bits) {
@@ -572,7 +724,7 @@ static void runCase(std::ostream &o, const std::string &id, const Program &p, Rn
 		else { vals.push_back(mk(0)); vals.push_back(mk(~0ull)); for (int i = 0; i < nRandom; i++) vals.push_back(mk(vrng.next())); }
 
 		bool dflt = hasDefault(p.stmts);   // Node_Default cannot be simulated before DefaultValueResolution (postprocess)
-		std::vector<std::vector<std::string>> pre(vals.size()), post(vals.size());
+		std::vector<std::vector<std::string>> pre(vals.size()), post(vals.size()), preI(vals.size()), postI(vals.size());
 		bool postFailed = false;
 		for (int pass = 0; pass < 2; pass++) {
 			if (pass == 1) {
@@ -588,6 +740,8 @@ static void runCase(std::ostream &o, const std::string &id, const Program &p, Rn
 				sim.eval();
 				auto &dst = pass ? post[k] : pre[k];
 				for (auto *op : outPins) dst.push_back(sim.getPin(op));
+				auto &dstI = pass ? postI[k] : preI[k];
+				for (auto *op : outPinsI) dstI.push_back(sim.getPin(op));
 			}
 		}
 		o << "nout " << outPins.size() << "\n";
@@ -595,9 +749,9 @@ static void runCase(std::ostream &o, const std::string &id, const Program &p, Rn
 			o << "v";
 			for (auto &s : vals[k]) o << ' ' << s;
 			o << " |";
-			if (dflt) o << " -"; else for (auto &s : pre[k]) o << ' ' << s;
+			if (dflt) o << " -"; else { for (auto &s : pre[k]) o << ' ' << s; if (!outPinsI.empty()) { o << " ;"; for (auto &s : preI[k]) o << ' ' << s; } }
 			o << " |";
-			if (postFailed) o << " -"; else for (auto &s : post[k]) o << ' ' << s;
+			if (postFailed) o << " -"; else { for (auto &s : post[k]) o << ' ' << s; if (!outPinsI.empty()) { o << " ;"; for (auto &s : postI[k]) o << ' ' << s; } }
 			o << '\n';
 		}
 	} catch (const std::exception &e) {
